@@ -45,6 +45,7 @@ pub fn read_frag(bytes: &[u8], frag: Frag, skip: bool, hash: bool, fail_at: Opti
 		skip_frames: skip,
 		compute_hash: hash,
 		debug: None,
+		..Default::default()
 	};
 	let mut r = FragReader::new(bytes, frag);
 	r.fail_at = fail_at;
@@ -720,7 +721,7 @@ fn check_skip(beh: &Beh, built: &Built, sink: &Sink) {
 		data.extend_from_slice(&built.bytes[..built.bytes.len().min(64)]);
 		for hash in [false, true] {
 			let c = format!("{},hash={},stream_offset", cls, hash);
-			let opts = peppi::io::slippi::de::Opts { skip_frames: true, compute_hash: hash, debug: None };
+			let opts = peppi::io::slippi::de::Opts { skip_frames: true, compute_hash: hash, debug: None, ..Default::default() };
 			// (a stream that fragments reads and can only move forward)
 			let mut cur = crate::stream::FragReader::new(&data[..], crate::stream::Frag::Fixed(1 + k % 97));
 			cur.forward_only = true;
